@@ -37,7 +37,7 @@ using Containers = TypeList<
     LBufA<std::string, 4, std::size_t>, LBufC<std::uint32_t, 100, std::uint8_t>,
     Wrap<int>, Wrap<std::string>, WrapBuf<int, 4>, WrapBuf<std::string, 2>,
     NonTrivial>;
-using Tables = TypeList<TableV1, TableV2, TableV3, TableNamed, TableZero,
+using Tables = TypeList<TableV1, TableV2, TableV3, TableNamed, TableZero, TableOpt,
                         HoldsTable, std::vector<TableV2>, Optional<TableV1>>;
 
 template <typename W, typename... Ts>
